@@ -1,6 +1,8 @@
 (* Small executable models of the libc pieces aws_sign.c uses: the %s %d %% fragment of printf,
-   gmtime_r (civil-from-days) and strftime for %Y %m %d %H %M %S.  Their fidelity is part of the
-   trusted base and is exercised by the correspondence run. *)
+   gmtime_r (civil-from-days) and strftime for %Y %m %d %H %M %S, as glibc implements them (in
+   particular %Y is not padded, and strftime returns 0 when the text and its NUL do not fit the
+   buffer).  Their fidelity is part of the trusted base and is exercised by the correspondence run,
+   including instants before year 1000 and after year 9999. *)
 From Coq Require Import NArith ZArith List Bool.
 Import ListNotations.
 Local Open Scope N_scope.
@@ -98,13 +100,32 @@ Definition gmtime (t : Z) : tm :=
   {| tm_year := y; tm_mon := m; tm_mday := d;
      tm_hour := rem / 3600; tm_min := (rem mod 3600) / 60; tm_sec := rem mod 60 |}.
 
+(* gmtime_r succeeds exactly when the year minus 1900 fits the int field tm_year; outside
+   [gmtime_r_min, gmtime_r_max] it returns NULL (EOVERFLOW), which aws_sign.c hands on to strftime
+   unchecked.  Those instants are outside the model's domain: no statement is made about them. *)
+Definition gmtime_r_min : Z := -67768040609740800.   (* -2147481748-01-01T00:00:00Z *)
+Definition gmtime_r_max : Z := 67768036191676799.    (*  2147485547-12-31T23:59:59Z *)
+
 (* ---------- strftime for the conversions used ---------- *)
 Definition digit (z : Z) : N := (48 + Z.to_N (z mod 10))%N.
 Definition pad2 (z : Z) : bytes := [digit (z / 10); digit z].
 Definition pad4 (z : Z) : bytes := [digit (z / 1000); digit (z / 100); digit (z / 10); digit z].
 
+(* %Y as glibc prints it: the year as a plain signed decimal number - NOT padded to four digits
+   and not truncated ("999", "10000", "-1").  (For tm_year + 1900 > INT_MAX glibc's int addition
+   wraps and an 11-character negative number is printed; the model prints the 10-digit positive
+   one.  Neither fits any buffer aws_sign.c uses.) *)
+Fixpoint udec_aux (fuel : nat) (z : Z) (acc : bytes) {struct fuel} : bytes :=
+  match fuel with
+  | O => acc
+  | S f => let acc' := digit z :: acc in if z <? 10 then acc' else udec_aux f (z / 10) acc'
+  end.
+Definition year_chars (y : Z) : bytes :=
+  if y <? 0 then 45%N :: udec_aux 20 (- y) [] else udec_aux 20 y [].
+
 Local Open Scope N_scope.
-Fixpoint strftime_body (fmt : bytes) (t : tm) {struct fmt} : option bytes :=
+(* [yp] prints the year (year_chars for the C library; the proofs compare with pad4) *)
+Fixpoint strftime_body_gen (yp : Z -> bytes) (fmt : bytes) (t : tm) {struct fmt} : option bytes :=
   match fmt with
   | [] => Some []
   | c :: r =>
@@ -112,25 +133,27 @@ Fixpoint strftime_body (fmt : bytes) (t : tm) {struct fmt} : option bytes :=
       match r with
       | d :: r' =>
         let conv :=
-          if d =? 89 then Some (pad4 (tm_year t))        (* %Y (years 1000..9999) *)
+          if d =? 89 then Some (yp (tm_year t))          (* %Y *)
           else if d =? 109 then Some (pad2 (tm_mon t))   (* %m *)
           else if d =? 100 then Some (pad2 (tm_mday t))  (* %d *)
           else if d =? 72 then Some (pad2 (tm_hour t))   (* %H *)
           else if d =? 77 then Some (pad2 (tm_min t))    (* %M *)
           else if d =? 83 then Some (pad2 (tm_sec t))    (* %S *)
           else None in
-        match conv, strftime_body r' t with
+        match conv, strftime_body_gen yp r' t with
         | Some a, Some b => Some (a ++ b)
         | _, _ => None
         end
       | [] => None
       end
-    else option_map (cons c) (strftime_body r t)
+    else option_map (cons c) (strftime_body_gen yp r t)
   end.
 
 (* strftime(buf, max, fmt, tm): fails (returns 0) unless the result and its NUL fit in max bytes *)
-Definition strftime (max : N) (fmt : bytes) (t : tm) : option bytes :=
-  match strftime_body fmt t with
+Definition strftime_gen (yp : Z -> bytes) (max : N) (fmt : bytes) (t : tm) : option bytes :=
+  match strftime_body_gen yp fmt t with
   | Some s => if N.of_nat (length s) <? max then Some s else None
   | None => None
   end.
+
+Definition strftime : N -> bytes -> tm -> option bytes := strftime_gen year_chars.
